@@ -946,9 +946,17 @@ class WorkflowConductor(object):
             # the state machine has determined the status for the task execution. If the task
             # is completed, get the task result and context which is required to evaluate the
             # the condition if a retry for the task is required.
-            if self.get_workflow_status() in statuses.ACTIVE_STATUSES and self._evaluate_task_retry(
-                task_state_entry, current_ctx
-            ):
+            # If there is a failure while evaluating the retry condition, fail the workflow.
+            try:
+                retry_task = self.get_workflow_status() in statuses.ACTIVE_STATUSES and (
+                    self._evaluate_task_retry(task_state_entry, current_ctx)
+                )
+            except Exception as e:
+                self.log_error(e, task_id=task_id, route=route)
+                self.request_workflow_status(statuses.FAILED)
+                retry_task = False
+
+            if retry_task:
                 return self.update_task_state(task_id, route, events.TaskRetryEvent())
 
         # Evaluate task transitions if task is completed and status change is not processed.
